@@ -115,6 +115,10 @@ func (g *gen) opBlock() *Op {
 		gap++
 	}
 	slot := p.slot + 1 + gap
+	if g.rng.Intn(3) == 0 {
+		// a block exactly at the next epoch start (checkpoints on block nodes rather than gap slots)
+		slot = (p.slot/g.spe + 1) * g.spe
+	}
 	if g.rng.Intn(5) == 0 && p.lastSlot > p.slot {
 		slot = p.slot + 1 + g.rng.Intn(p.lastSlot-p.slot+1)
 	}
